@@ -6,7 +6,8 @@
    bytes.Compare, [accepts] = the language of a node, [reach], [rank_of] = position in the
    list, [minimal_size] = number of distinct residual languages of prefixes). *)
 From Coq Require Import List NArith ZArith.
-From Mamba Require Import Dawg.Model Dawg.Tree Dawg.Spec Dawg.BuildProofs Dawg.BuildSeq Dawg.LangOrder Dawg.LangStore.
+From Mamba Require Import Dawg.Model Dawg.Tree Dawg.Spec Dawg.BuildProofs Dawg.BuildSeq Dawg.LangOrder Dawg.LangStore
+  Dawg.MinimalStore Dawg.MinimalSpec Dawg.LangWords Dawg.BuildIds.
 Import ListNotations.
 
 Definition ex_ws : list word :=
@@ -59,12 +60,50 @@ Theorem C12_rank_is_lexicographic : forall ws w r, increasing ws -> rank_of w ws
 Proof. exact rank_of_lex_rank. Qed.
 Print Assumptions C12_rank_is_lexicographic.
 
+Definition ex_s : store := match new_dawg ex_ws with Ok (Some s) => s | _ => sempty end.
+
 Example C12_language_nonvacuous :
-  exists s, new_dawg ex_ws = Ok (Some s) /\ increasing ex_ws /\
-    lookup s root [2%N; 2%N; 3%N] = Ok (Some 5%Z) /\ lookup s root [2%N; 2%N] = Ok None /\
-    lookup s root [] = Ok (Some 0%Z) /\ number_of_words s root = Ok 8%Z /\
-    number_of_nodes 100 s root = Ok 6%nat.
-Proof. eexists. vm_compute. repeat split. Qed.
+  new_dawg ex_ws = Ok (Some ex_s) /\ increasing ex_ws /\
+  lookup ex_s root [2%N; 2%N; 3%N] = Ok (Some 5%Z) /\ lookup ex_s root [2%N; 2%N] = Ok None /\
+  lookup ex_s root [] = Ok (Some 0%Z) /\ number_of_words ex_s root = Ok 8%Z /\
+  number_of_nodes 100 ex_s root = Ok 6%nat.
+Proof. vm_compute. repeat split. Qed.
+
+(* Minimality: the automaton has exactly as many nodes (keys reachable from the root) as the
+   minimal deterministic acyclic automaton of the set, i.e. as there are distinct residual
+   languages u^-1 ws for u the empty word or a prefix of a word of ws. *)
+Theorem C12_minimal : forall ws s, increasing ws -> new_dawg ws = Ok (Some s) ->
+  exists L, NoDup L /\ (forall j, In j L <-> reach s root j) /\ length L = minimal_size ws.
+Proof. exact dawg_minimal. Qed.
+Print Assumptions C12_minimal.
+
+Example C12_minimal_nonvacuous :
+  minimal_size ex_ws = 6%nat /\ minimal_size [] = 1%nat /\ minimal_size [[]] = 1%nat /\
+  length (flat_map (fun w => w) ex_ws) = 16%nat.
+Proof. vm_compute. repeat split. Qed.
+
+(* What minimal_size counts: its value is the length of a list of representatives, one for each
+   class of prefixes of ws (the empty prefix included) with the same right language. *)
+Theorem C12_minimal_size_is_myhill_nerode : forall ws, increasing ws ->
+  exists us, length us = minimal_size ws /\
+    (forall u, In u us -> is_prefix ws u) /\
+    (forall u, is_prefix ws u -> exists u', In u' us /\ same_residual ws u u') /\
+    (forall i j u u', nth_error us i = Some u -> nth_error us j = Some u' -> same_residual ws u u' -> i = j).
+Proof. exact minimal_size_classes. Qed.
+Print Assumptions C12_minimal_size_is_myhill_nerode.
+
+(* Two facts that tie what the model driver prints to the theorems: the executable enumerator
+   of the language returns ws itself, and every node is stored under its own id (for any
+   argument of New, increasing or not). *)
+Theorem C12_words_from : forall ws s fuel, increasing ws -> new_dawg ws = Ok (Some s) ->
+  (2 <= fuel)%nat -> (forall w, In w ws -> (length w + 2 <= fuel)%nat) ->
+  words_from fuel s root = Ok ws.
+Proof. exact dawg_words_from. Qed.
+Print Assumptions C12_words_from.
+
+Theorem C12_node_ids : forall ws s, new_dawg ws = Ok (Some s) -> forall i n, sget s i = Some n -> nid n = i.
+Proof. exact new_dawg_ids. Qed.
+Print Assumptions C12_node_ids.
 
 (* An Add that returns an error leaves the builder exactly as it was ... *)
 Theorem C12_rejected_add_unchanged : forall b w b', add b w = Ok (b', false) -> b' = b.
@@ -87,10 +126,13 @@ Theorem C12_finish_after_add_sequence : forall ws b oks, add_seq initialise ws =
 Proof. exact finish_after_add_seq. Qed.
 Print Assumptions C12_finish_after_add_sequence.
 
+Definition ex_b : builder :=
+  match add_seq initialise [[1%N; 2%N]; [1%N; 3%N]] with Ok (b, _) => b | _ => initialise end.
+
 Example C12_rejected_nonvacuous :
-  exists b b1, add_seq initialise [[1%N; 2%N]; [1%N; 3%N]] = Ok (b, [true; true]) /\
-    add b [1%N; 2%N] = Ok (b1, false) /\ add b [1%N; 3%N] = Ok (b1, false) /\ add b [] = Ok (b1, false).
-Proof. eexists. eexists. vm_compute. repeat split. Qed.
+  add_seq initialise [[1%N; 2%N]; [1%N; 3%N]] = Ok (ex_b, [true; true]) /\
+  add ex_b [1%N; 2%N] = Ok (ex_b, false) /\ add ex_b [1%N; 3%N] = Ok (ex_b, false) /\ add ex_b [] = Ok (ex_b, false).
+Proof. vm_compute. repeat split. Qed.
 
 Example C12_add_sequence_nonvacuous :
   accept_flags None [[2%N]; [1%N]; [2%N]; [2%N; 1%N]; []; [3%N]] = [true; false; false; true; false; true] /\
